@@ -455,6 +455,9 @@ func stagesFromMask(names []string, n, mask int, perm []int, rng *rand.Rand) []g
 		if rng != nil && len(s.deps) > 1 {
 			rng.Shuffle(len(s.deps), func(a, b int) { s.deps[a], s.deps[b] = s.deps[b], s.deps[a] })
 		}
+		if rng != nil && len(s.deps) > 0 && rng.Intn(5) == 0 {
+			s.deps = withRepeat(rng, s.deps)
+		}
 		st[k] = s
 	}
 	return st
@@ -482,9 +485,22 @@ func randomStages(rng *rand.Rand, n int, dens float64, undeclared bool) []gstage
 		if undeclared && rng.Intn(4) == 0 {
 			s.deps = append(s.deps, "ghost")
 		}
+		if len(s.deps) > 0 && rng.Intn(4) == 0 {
+			s.deps = withRepeat(rng, s.deps)
+		}
 		st[k] = s
 	}
 	return st
+}
+
+// the same dependency list with one entry listed a second time, at a random position (a dependency named twice is
+// still that dependency; the entries after the repetition are dependencies like any other)
+func withRepeat(rng *rand.Rand, deps []string) []string {
+	d := deps[rng.Intn(len(deps))]
+	at := rng.Intn(len(deps) + 1)
+	out := append([]string{}, deps[:at]...)
+	out = append(out, d)
+	return append(out, deps[at:]...)
 }
 
 func permutations(n int) [][]int {
